@@ -382,6 +382,190 @@ func oorCase(k int, r int64, v int64) *wire.Case {
 	return c
 }
 
+// ---- long sorts: the list is described by (mode, n, seed) and expanded on both sides ----
+
+func lcgNext(x uint64) uint64 { return 6364136223846793005*x + 1442695040888963407 }
+
+func genBig(mode, n int, seed int64) []triple {
+	ts := make([]triple, 0, n)
+	switch mode {
+	case 0:
+		x := uint64(seed)
+		for i := 0; i < n; i++ {
+			x = lcgNext(x)
+			ts = append(ts, triple{[]int{1, 2, 3, 1}[(x>>33)&3], int64((x >> 13) & (1<<40 - 1)), int(x & 0xffff)})
+		}
+	case 1:
+		for i := n - 1; i >= 1; i-- {
+			ts = append(ts, triple{2, int64(i), 1})
+		}
+		if n > 0 {
+			ts = append(ts, triple{1, 1, 1})
+		}
+	default:
+		if n < 3 {
+			for i := 1; i <= n; i++ {
+				ts = append(ts, triple{1, int64(i), 1})
+			}
+			break
+		}
+		m := n - 3
+		for i := 1; i <= m; i++ {
+			ts = append(ts, triple{1, int64(i), 1})
+		}
+		ts = append(ts, triple{1, int64(m + 3), 1}, triple{1, int64(m + 2), 1}, triple{1, int64(m + 1), 1})
+	}
+	return ts
+}
+
+func hashes(ids []int64) (su, sq, ro uint32) {
+	const B = 1000003
+	for _, id := range ids {
+		m := uint32(uint64(id) ^ (uint64(id) >> 29))
+		su += m
+		sq += m * m
+		ro = ro*B + m
+	}
+	return
+}
+
+func bigSortCase(which, mode, n int, seed int64) *wire.Case {
+	c := &wire.Case{Class: fmt.Sprintf("bigsort%d", which)}
+	ts := genBig(mode, n, seed)
+	c.Int(11).Int(int64(which)).Int(int64(mode)).Int(int64(n)).Int(seed)
+	var out []int64
+	want := make([]int64, len(ts))
+	switch which {
+	case 0:
+		ids := make(osm.ElementIDs, len(ts))
+		for i, t := range ts {
+			ids[i] = elementID(t.k, t.r, t.v)
+			want[i] = specPack(t.k, t.r, t.v)
+		}
+		ids.Sort()
+		for _, id := range ids {
+			out = append(out, int64(id))
+		}
+	case 1:
+		ids := make(osm.FeatureIDs, len(ts))
+		for i, t := range ts {
+			ids[i] = featureID(t.k, t.r)
+			want[i] = specPack(t.k, t.r, 0)
+		}
+		ids.Sort()
+		for _, id := range ids {
+			out = append(out, int64(id))
+		}
+	default:
+		es := make(osm.Elements, len(ts))
+		for i, t := range ts {
+			es[i] = object(t).(osm.Element)
+			want[i] = specPack(t.k, t.r, t.v)
+		}
+		es.Sort()
+		for _, e := range es {
+			out = append(out, int64(e.ElementID()))
+		}
+	}
+	dis := -1
+	for i := 1; i < len(out); i++ {
+		if out[i-1] > out[i] {
+			dis = i
+			break
+		}
+	}
+	su, sq, ro := hashes(out)
+	c.Int(int64(len(out))).Int(int64(dis)).Int(int64(su)).Int(int64(sq)).Int(int64(ro))
+	sort.Slice(want, func(i, j int) bool { return want[i] < want[j] })
+	d := map[string]interface{}{"sort": []string{"ElementIDs", "FeatureIDs", "Elements"}[which], "generator_mode": mode, "n": n, "seed": seed,
+		"generator":                "mode 0: x=6364136223846793005*x+1442695040888963407 mod 2^64, kind [node,way,relation,node][(x>>33)&3], ref (x>>13)&(2^40-1), version x&0xffff; mode 1: way ids n-1..1 then node 1; mode 2: node ids 1..n-3 then n, n-1, n-2",
+		"first_index_out_of_order": dis, "output_length": len(out)}
+	if dis >= 0 {
+		lo := dis - 2
+		if lo < 0 {
+			lo = 0
+		}
+		hi := dis + 2
+		if hi > len(out) {
+			hi = len(out)
+		}
+		var around []string
+		for _, id := range out[lo:hi] {
+			around = append(around, osm.ElementID(id).String())
+		}
+		d["output_around_that_index"] = around
+		c.OracleFail = fmt.Sprintf("sorted output of %d ids is out of order at index %d", len(out), dis)
+	}
+	for i := range want {
+		if i >= len(out) || want[i] != out[i] {
+			if c.OracleFail == "" {
+				c.OracleFail = fmt.Sprintf("sorted output differs from the sorted permutation of the input at index %d", i)
+			}
+			break
+		}
+	}
+	c.Desc = d
+	return c
+}
+
+// strSeqCase: String() on several ids in a row; every returned string is KEPT, a copy is taken
+// at return time, and only after all calls the kept strings are compared and parsed.
+func strSeqCase(which int, ts []triple) *wire.Case {
+	c := &wire.Case{Class: fmt.Sprintf("strseq%d", which)}
+	c.Int(12).Int(int64(which))
+	putTriples(c, ts)
+	kept := make([]string, len(ts))
+	copies := make([]string, len(ts))
+	for i, t := range ts {
+		var s string
+		switch which {
+		case 0:
+			s = objectID(t.k, t.r, t.v).String()
+		case 1:
+			s = elementID(t.k, t.r, t.v).String()
+		default:
+			s = featureID(t.k, t.r).String()
+		}
+		kept[i] = s
+		copies[i] = string(append([]byte(nil), s...))
+	}
+	c.Len(len(ts))
+	var rows []interface{}
+	for i, t := range ts {
+		same := kept[i] == copies[i]
+		var id int64
+		var err error
+		want := specPack(t.k, t.r, t.v)
+		switch which {
+		case 0:
+			var x osm.ObjectID
+			x, err = osm.ParseObjectID(kept[i])
+			id = int64(x)
+		case 1:
+			var x osm.ElementID
+			x, err = osm.ParseElementID(kept[i])
+			id = int64(x)
+		default:
+			var x osm.FeatureID
+			x, err = osm.ParseFeatureID(kept[i])
+			id, want = int64(x), specPack(t.k, t.r, 0)
+		}
+		// copy the (possibly aliased) kept text now, for the wire and the replay
+		now := string(append([]byte(nil), kept[i]...))
+		c.Str(now).Bool(same).Bool(err == nil).Int(id)
+		rows = append(rows, map[string]interface{}{"id": []interface{}{string(kinds[t.k]), t.r, t.v}, "string_when_returned": copies[i], "kept_string_after_all_calls": now, "parse_ok": err == nil, "parsed": id})
+		if c.OracleFail == "" {
+			if !same {
+				c.OracleFail = fmt.Sprintf("the string returned for id %d (%q) read %q after later String() calls", i, copies[i], now)
+			} else if err != nil || id != want {
+				c.OracleFail = fmt.Sprintf("the kept string %q does not parse back to its id", now)
+			}
+		}
+	}
+	c.Desc = map[string]interface{}{"call": []string{"ObjectID.String", "ElementID.String", "FeatureID.String"}[which] + " on every id in a row, results kept, then compared and parsed", "rows": rows}
+	return c
+}
+
 type triple struct {
 	k int
 	r int64
@@ -555,7 +739,7 @@ func main() {
 	a := wire.ParseArgs()
 	rng := wire.Rng(a.Seed)
 	w := wire.NewWriter("C10", a.Seed, a.Tier)
-	w.Rule = "ids: every kind x boundary refs (2^k-1,2^k,2^k+1, k<=40) x boundary versions plus random in-range; sorts: random lists over a boundary subset (all pairs occur); parse: String() of ids, grammar mutations and fixed malformed strings (oracle from the text alone: shape + denoted value); conversions NodeID/WayID/RelationID of feature and element ids of every element kind x boundary refs; WayNode / Member ids, Type.FeatureID on element, non-element and near-miss type strings; Counts and Elements/Objects id lists on random lists over boundary refs; out-of-range refs/versions (any int64) against the closed formulas. distinct = distinct token streams; all cases non-trivial except the empty sort."
+	w.Rule = "ids: every kind x boundary refs (2^k-1,2^k,2^k+1, k<=40) x boundary versions plus random in-range; sorts: random lists over a boundary subset (all pairs occur); parse: String() of ids, grammar mutations and fixed malformed strings (oracle from the text alone: shape + denoted value); conversions NodeID/WayID/RelationID of feature and element ids of every element kind x boundary refs; WayNode / Member ids, Type.FeatureID on element, non-element and near-miss type strings; Counts and Elements/Objects id lists on random lists over boundary refs; out-of-range refs/versions (any int64) against the closed formulas; sorts of 4096..5002 (thorough ..20001) ids described by generator parameters and expanded on both sides (output compared through order/multiset/rolling hashes); String() on several ids in a row with the results kept and only then compared and parsed. distinct = distinct token streams; all cases non-trivial except the empty sort."
 	refs := boundaryRefs()
 	nrand, nsort, nparse := 300, 150, 1500
 	if a.Tier == "thorough" {
@@ -648,6 +832,46 @@ func main() {
 		w.Add(listCase(i%2, es))
 		w.Add(listCase(2, ts))
 	}
+	// 1f. long sorts (beyond any chunking threshold; lengths not divisible by 2, 4, 8)
+	bigN := []int{4096, 4097, 4099, 5002}
+	if a.Tier == "thorough" {
+		bigN = []int{2049, 4095, 4096, 4097, 4098, 4099, 5002, 8191, 8193, 12347, 16385, 20001}
+	}
+	for i, n := range bigN {
+		for which := 0; which < 3; which++ {
+			w.Add(bigSortCase(which, 0, n, a.Seed*1000+int64(i)))
+			if a.Tier == "thorough" || which == i%3 {
+				w.Add(bigSortCase(which, 1, n, 0))
+				w.Add(bigSortCase(which, 2, n, 0))
+			}
+		}
+	}
+	// 1g. strings kept across later String() calls
+	nseq := int(30 * a.Scale)
+	if a.Tier == "thorough" {
+		nseq = int(600 * a.Scale)
+	}
+	w.Add(strSeqCase(1, []triple{{1, 1, 1}, {2, 22, 3}}))
+	w.Add(strSeqCase(0, []triple{{1, 1, 1}, {4, 22, 0}, {0, 0, 0}, {3, 1<<40 - 1, 65535}}))
+	for i := 0; i < nseq; i++ {
+		n := 2 + rng.Intn(10)
+		ts := make([]triple, n)
+		which := i % 3
+		for j := range ts {
+			k := 1 + rng.Intn(3)
+			if which == 0 {
+				k = rng.Intn(7)
+			}
+			ts[j] = triple{k, refs[rng.Intn(len(refs))], bversions[rng.Intn(len(bversions))]}
+			if !isElem(k) {
+				ts[j].v = 0
+			}
+			if k == 0 {
+				ts[j].r = 0
+			}
+		}
+		w.Add(strSeqCase(which, ts))
+	}
 	// 1e. outside the domain: negative refs, refs >= 2^40, versions outside [0, 2^16)
 	oorRefs := []int64{-1, -2, -1 << 39, -1 << 40, -1<<40 - 1, 1 << 40, 1<<40 + 7, 1 << 41, 1 << 44, 1<<44 + 7, 1 << 45, 1 << 46, 1<<47 - 1, 1 << 47, 1 << 48, 1<<48 + 7,
 		1<<62 + 5, math.MaxInt64, math.MinInt64, math.MinInt64 + 1, -1 << 47, -1<<47 - 1, 3<<40 + 9, 0x7f << 40, 0x20<<40 + 1}
@@ -738,6 +962,8 @@ func main() {
 		canary(memberCase("way", 77, 3), last)
 		canary(typeFeatureCase("changeset", 5), func(t []uint64) { t[len(t)-2] = 2 }) // error -> ok
 		canary(oorCase(1, -1, 70000), last)
+		canary(bigSortCase(0, 1, 4097, 0), func(t []uint64) { t[6] = 2 * 4096 })                // "out of order at index 4096"
+		canary(strSeqCase(1, []triple{{1, 1, 1}, {2, 22, 3}}), func(t []uint64) { t[9+9] = 0 }) // first kept string "changed"
 	}
 	if err := w.Flush(a.Out, "Verif.C10.Check", 1200); err != nil {
 		fmt.Fprintln(os.Stderr, err)
